@@ -64,7 +64,7 @@ pub fn json_eq(a: &Json, b: &Json) -> bool {
 // ---------------------------------------------------------------------------
 // generation
 
-const STR_PIECES: &[&str] = &["a", "b c", "é", "日本", "🙂", "\"", "\\", "\n", "=", "k=v", "<>&", "'", "\t", "%s", "0", "-", "{}", "$x", "\r\n", " "];
+const STR_PIECES: &[&str] = &["a", "b c", "é", "日本", "🙂", "\"", "\\", "\n", "=", "k=v", "<>&", "'", "\t", "%s", "0", "-", "{}", "$x", "\r\n", " ", "\u{1}", "\u{19}", "\u{1a}", "\u{1f}", "\u{7f}", "\u{80}", "\u{9f}", "\u{2028}"];
 const SAFE_KEYS: &[&str] = &["a", "b", "f1", "out.json", "x-y", "Z_9", "c.txt"];
 const ANY_KEYS: &[&str] = &["a", "b", "f1", "with space", "quo\"te", "é", "new\nline", "", "k=v", "z"];
 
@@ -255,13 +255,21 @@ impl Emit<'_> {
                 let mut parts: Vec<String> = Vec::new();
                 for (k, x) in o {
                     let e = self.emit(x, depth + 1);
-                    parts.push(format!("{}: {e}", Self::lit(&Json::Str(k.clone()))));
+                    // `:::` (forced visible) fields are visible fields like any other
+                    let vis = if self.rng.chance(1, 5) { ":::" } else { ":" };
+                    parts.push(format!("{}{vis} {e}", Self::lit(&Json::Str(k.clone()))));
                 }
                 if self.rng.chance(1, 4) {
                     // hidden fields never reach the output (and are never evaluated)
                     parts.push("hidden_never:: error \"hidden field evaluated\"".into());
                 }
-                format!("{{ {} }}", parts.join(", "))
+                let obj = format!("{{ {} }}", parts.join(", "));
+                // visibility through inheritance: hidden in the base, un-hidden (or re-stated) by the extension
+                if !o.is_empty() && self.rng.chance(1, 6) {
+                    let k = Self::lit(&Json::Str(o[0].0.clone()));
+                    return format!("({{ {k}:: null }} + {obj} + {{ {k}::: super[{k}] }})");
+                }
+                obj
             }
             other => Self::lit(other),
         }
